@@ -68,6 +68,7 @@ class Result:
         self.extra: dict = {}
         self.evaluations = 0
         self.instances: set = set()
+        self.refusals: list[str] = []  # parts of the analysis that could not be carried out (exit 2 unless a violation was found elsewhere)
 
     def inst(self, rule, construct, ok=True, sample=None):
         """Record one rule instance: `rule` applied to `construct` (a short string naming a
